@@ -13,6 +13,7 @@ CONSTANTS
   WithErrors = FALSE
   WithIdle = TRUE
   WithSleep = FALSE
+  KeepLog = FALSE
 INVARIANT TypeOK
 INVARIANT LockOK
 INVARIANT NoUnexplainedWitness
